@@ -593,10 +593,31 @@ def _raise_stmt(st):
     return [ast.fix_missing_locations(ast.copy_location(ast.Expr(value=call), st))]
 
 
-def _lower_keyerror_try(st):
+def plain_dict_fields(ck, cls):
+    """Fields of `cls` that only ever hold a dict the class made itself (every assignment is `dict()` / `{}`, a class-level
+    None aside): a lookup of a missing key in them raises KeyError.  A mapping handed in by the caller is not one of
+    them -- a defaultdict answers a missing key with a default and keeps it."""
+    vals = {}
+    for c in ck.repo.mro(cls):
+        for m in c.methods.values():
+            for n in A.walk_body(m.node):
+                if isinstance(n, (ast.Assign, ast.AnnAssign, ast.AugAssign)):
+                    pairs = _flat_targets(n) if not isinstance(n, ast.AugAssign) else [(n.target, None)]
+                    for (t, v) in pairs:
+                        f = self_attr(t)
+                        if f:
+                            vals.setdefault(f, []).append(v)
+    def fresh(v):
+        return v is not None and ((isinstance(v, ast.Dict) and not v.keys) or
+                                  (isinstance(v, ast.Call) and isinstance(v.func, ast.Name) and v.func.id == "dict" and not v.args and not v.keywords))
+    return {f for f, vs in vals.items() if vs and all(fresh(v) for v in vs)}
+
+
+def _lower_keyerror_try(st, plain=()):
     """`try: return self.m[k] ... except KeyError: H [else: E]` (one statement tried, every lookup in it by the same
-    key, the exception object not used)  ->  `if k in self.m: return self.m[k] ...; E  else: H`: asking forgiveness for a
-    missing key is asking permission first.  (That nothing else in the statement raises KeyError is taken as given.)"""
+    key in a plain dict of the class's own making, the exception object not used)  ->  `if k in self.m: return self.m[k]
+    ...; E  else: H`: asking forgiveness for a missing key is asking permission first.  (That nothing else in the
+    statement raises KeyError is taken as given.)"""
     import copy
     if not (isinstance(st, ast.Try) and len(st.handlers) == 1 and not st.finalbody and len(st.body) == 1):
         return [st]
@@ -609,7 +630,7 @@ def _lower_keyerror_try(st):
     if any(isinstance(x, ast.Raise) and x.exc is None for b_ in h.body for x in ast.walk(b_)):
         return [st]
     subs = [x for x in ast.walk(only.value) if isinstance(x, ast.Subscript) and isinstance(x.ctx, ast.Load) and self_attr(x.value) and isinstance(x.slice, ast.Name)]
-    if not subs or len({x.slice.id for x in subs}) != 1:
+    if not subs or len({x.slice.id for x in subs}) != 1 or not all(self_attr(x.value) in plain for x in subs):
         return [st]
     first = min(subs, key=lambda x: (x.lineno, x.col_offset))
     test = ast.Compare(left=ast.Name(id=first.slice.id, ctx=ast.Load()), ops=[ast.In()], comparators=[copy.deepcopy(first.value)])
@@ -814,7 +835,8 @@ def view(ck, qual_or_fi, how):
         node = copy.deepcopy(fi.node)
         if how == "accessor":
             # the branches view of a get(): a lookup tried and caught is a membership test first
-            _rewrite_blocks(node, _lower_keyerror_try)
+            plain = plain_dict_fields(ck, fi.cls) if fi.cls is not None else set()
+            _rewrite_blocks(node, lambda st_: _lower_keyerror_try(st_, plain))
         _rewrite_blocks(node, _lower_stmt if how in ("branches", "accessor") else _raise_stmt)
         if how == "branches":
             node = _merge_parts(node)
